@@ -4,6 +4,7 @@ package c11
 
 import (
 	"fmt"
+	"maps"
 	"strings"
 	"testing"
 
@@ -71,12 +72,29 @@ func (m *model) String() string {
 type pair struct {
 	mgr *keyset.Manager
 	mod *model
+	// annot models the manager's annotations (SetAnnotations); a manager made from a handle starts
+	// without any
+	annot map[string]string
 }
 
 type savedHandle struct {
 	h       *keyset.Handle
 	entries []mEntry
 	info    string
+	annot   map[string]string // the handle's annotations when it was obtained (a private copy)
+}
+
+// annotEqual: nil and empty annotations are the same thing (no annotations).
+func annotEqual(a, b map[string]string) bool {
+	if len(a) != len(b) {
+		return false
+	}
+	for k, v := range a {
+		if w, ok := b[k]; !ok || w != v {
+			return false
+		}
+	}
+	return true
 }
 
 func snapshotEqual(a, b []keyset.VerifEntry) bool {
@@ -177,11 +195,12 @@ func TestManagerHistories(t *testing.T) {
 	tmpls := templates()
 	rapid.Check(t, func(rt *rapid.T) {
 		detrand.Seed(rapid.Uint64().Draw(rt, "entropy"))
-		pairs := []*pair{{keyset.NewManager(), &model{used: map[uint32]bool{}}}}
+		pairs := []*pair{{mgr: keyset.NewManager(), mod: &model{used: map[uint32]bool{}}}}
 		var handles []savedHandle
 		var everSeen []uint32
 		var history []string
 		failedOps, stateChanges, promotes, afterPromoteChange := 0, 0, 0, false
+		annotOps := 0
 		actionCount := map[string]int{}
 		log := func(f string, a ...any) { history = append(history, fmt.Sprintf(f, a...)) }
 		fail := func(f string, a ...any) {
@@ -427,9 +446,53 @@ func TestManagerHistories(t *testing.T) {
 				if (err != nil) != !p.mod.hasPrimary() {
 					fail("Handle() error=%v but model primary present=%v (%v)", err, p.mod.hasPrimary(), p.mod)
 				}
-				if err == nil && len(handles) < 6 {
-					handles = append(handles, savedHandle{h: h, entries: append([]mEntry{}, p.mod.entries...), info: h.KeysetInfo().String()})
+				if err == nil {
+					// not part of the property (it speaks of EARLIER handles): counted only
+					if annotEqual(h.Annotations(internalapi.Token{}), p.annot) {
+						evid.Add("new_handle_carries_manager_annotations", 1)
+					} else {
+						evid.Add("new_handle_annotations_differ_from_manager", 1)
+					}
 				}
+				if err == nil && len(handles) < 6 {
+					handles = append(handles, savedHandle{h: h, entries: append([]mEntry{}, p.mod.entries...), info: h.KeysetInfo().String(), annot: maps.Clone(h.Annotations(internalapi.Token{}))})
+				}
+			},
+			"SetAnnotations": func(rt *rapid.T) {
+				// a later manager operation like any other: handles obtained earlier keep the
+				// annotations (and with them the monitoring identity) they were created with
+				p := pick()
+				var a map[string]string
+				switch rapid.IntRange(0, 3).Draw(rt, "annotKind") {
+				case 0: // nil: clears
+				case 1:
+					a = map[string]string{}
+				default:
+					a = map[string]string{}
+					for _, k := range []string{"env", "owner", "zone"} {
+						if rapid.Bool().Draw(rt, "has_"+k) {
+							a[k] = rapid.SampledFrom([]string{"a", "b", "c"}).Draw(rt, "val_"+k)
+						}
+					}
+				}
+				want := maps.Clone(a)
+				before := p.mgr.VerifSnapshot()
+				err := p.mgr.SetAnnotations(a)
+				actionCount["SetAnnotations"]++
+				log("SetAnnotations(%v) -> err=%v", want, err)
+				if err != nil {
+					fail("SetAnnotations(%v): %v", want, err)
+				}
+				if !snapshotEqual(before, p.mgr.VerifSnapshot()) {
+					fail("SetAnnotations(%v) changed the entries", want)
+				}
+				// the caller keeps using its map ("makes a copy of the annotations map")
+				if a != nil {
+					a["env"] = "mutated-by-caller"
+					a["extra"] = "x"
+				}
+				p.annot = want
+				annotOps++
 			},
 			"NewManagerFromHandle": func(rt *rapid.T) {
 				if len(handles) == 0 || len(pairs) >= 3 {
@@ -440,7 +503,7 @@ func TestManagerHistories(t *testing.T) {
 				for _, e := range m.entries {
 					m.used[e.id] = true
 				}
-				pairs = append(pairs, &pair{keyset.NewManagerFromHandle(sh.h), m})
+				pairs = append(pairs, &pair{mgr: keyset.NewManagerFromHandle(sh.h), mod: m})
 				actionCount["NewManagerFromHandle"]++
 				log("NewManagerFromHandle(%v)", m)
 			},
@@ -484,6 +547,9 @@ func TestManagerHistories(t *testing.T) {
 				}
 				for hi, sh := range handles {
 					checkHandle(fail, sh.h, sh.entries, sh.info, fmt.Sprintf("handle #%d obtained earlier", hi))
+					if got := sh.h.Annotations(internalapi.Token{}); !annotEqual(got, sh.annot) {
+						fail("handle #%d obtained earlier: annotations changed from %v to %v", hi, sh.annot, got)
+					}
 				}
 			},
 		})
@@ -496,6 +562,7 @@ func TestManagerHistories(t *testing.T) {
 			evid.Add("action_"+a, int64(n))
 		}
 		evid.Add("failed_ops", int64(failedOps))
+		evid.Add("set_annotations_ops", int64(annotOps))
 		evid.Add("steps", int64(len(history)))
 		class := fmt.Sprintf("len=%s/failed=%s/managers=%d", bucket(len(history)), bucket(failedOps), len(pairs))
 		evid.Case(class, nontrivial, h.Sum(), func() any { return history })
